@@ -347,6 +347,33 @@ theorem M22_scale {α : Type} [CommRing α] (m m0 : M22 α) (s : V2 α) :
     simp [Gen.M22.scale, Gen.M22.setScaleV, M22.toMat, Matrix.mul_apply, Fin.sum_univ_two] <;> ring
 
 
+/-! ## the reference RETURNED by the in-place forms is the updated matrix (`return *this`), for every in-place form of the property -/
+theorem M44_scaleRet {α : Type} [CommRing α] (m : M44 α) (s : V3 α) : Gen.M44.scaleRet m s = Gen.M44.scale m s := by
+  simp only [Gen.M44.scaleRet, Gen.M44.scale] <;> first | rfl | (congr 1 <;> ring1)
+theorem M44_shearVRet {α : Type} [CommRing α] (m : M44 α) (h : V3 α) : Gen.M44.shearVRet m h = Gen.M44.shearV m h := by
+  simp only [Gen.M44.shearVRet, Gen.M44.shearV] <;> first | rfl | (congr 1 <;> ring1)
+theorem M44_shear6Ret {α : Type} [CommRing α] (m : M44 α) (h : Shear6 α) : Gen.M44.shear6Ret m h = Gen.M44.shear6 m h := by
+  simp only [Gen.M44.shear6Ret, Gen.M44.shear6] <;> first | rfl | (congr 1 <;> ring1)
+theorem M44_rotateRet {α : Type} [CommRing α] (sin cos : α → α) (m : M44 α) (r : V3 α) :
+    Gen.M44.rotateRet sin cos m r = Gen.M44.rotate sin cos m r := by
+  simp only [Gen.M44.rotateRet, Gen.M44.rotate] <;> first | rfl | (congr 1 <;> ring1)
+theorem M33_translateRet {α : Type} [CommRing α] (m : M33 α) (t : V2 α) : Gen.M33.translateRet m t = Gen.M33.translate m t := by
+  simp only [Gen.M33.translateRet, Gen.M33.translate] <;> first | rfl | (congr 1 <;> ring1)
+theorem M33_scaleRet {α : Type} [CommRing α] (m : M33 α) (s : V2 α) : Gen.M33.scaleRet m s = Gen.M33.scale m s := by
+  simp only [Gen.M33.scaleRet, Gen.M33.scale] <;> first | rfl | (congr 1 <;> ring1)
+theorem M33_shearSRet {α : Type} [CommRing α] (m : M33 α) (xy : α) : Gen.M33.shearSRet m xy = Gen.M33.shearS m xy := by
+  simp only [Gen.M33.shearSRet, Gen.M33.shearS] <;> first | rfl | (congr 1 <;> ring1)
+theorem M33_shearVRet {α : Type} [CommRing α] (m : M33 α) (h : V2 α) : Gen.M33.shearVRet m h = Gen.M33.shearV m h := by
+  simp only [Gen.M33.shearVRet, Gen.M33.shearV] <;> first | rfl | (congr 1 <;> ring1)
+theorem M33_rotateRet {α : Type} [CommRing α] (sin cos : α → α) (m : M33 α) (r : α) :
+    Gen.M33.rotateRet sin cos m r = Gen.M33.rotate sin cos m r := by
+  simp only [Gen.M33.rotateRet, Gen.M33.rotate] <;> first | rfl | (congr 1 <;> ring1)
+theorem M22_rotateRet {α : Type} [CommRing α] (sin cos : α → α) (m : M22 α) (r : α) :
+    Gen.M22.rotateRet sin cos m r = Gen.M22.rotate sin cos m r := by
+  simp only [Gen.M22.rotateRet, Gen.M22.rotate] <;> first | rfl | (congr 1 <;> ring1)
+theorem M22_scaleRet {α : Type} [CommRing α] (m : M22 α) (s : V2 α) : Gen.M22.scaleRet m s = Gen.M22.scale m s := by
+  simp only [Gen.M22.scaleRet, Gen.M22.scale] <;> first | rfl | (congr 1 <;> ring1)
+
 theorem transMat_eq_setTranslation {α : Type} [CommRing α] (m0 : M44 α) (v : V3 α) :
     transMat v = (Gen.M44.setTranslation m0 v).toMat := by
   ext i j; fin_cases i <;> fin_cases j <;> simp [Gen.M44.setTranslation, transMat, M44.toMat]
@@ -382,8 +409,10 @@ theorem computeLocalFrame_frame (tmin tmax : α) (sqrt : α → α) (hlen : LenS
 example : (⟨2, 0, 0⟩ : V3 ℝ) ≠ ⟨0, 0, 0⟩ ∧ cross (⟨0, 0, 3⟩ : V3 ℝ) ⟨2, 0, 0⟩ ≠ ⟨0, 0, 0⟩ ∧ dot (⟨2, 0, 0⟩ : V3 ℝ) ⟨0, 0, 3⟩ = 0 := by
   refine ⟨by simp, by simp [cross], by simp [dot]⟩
 
-/-- `firstFrame`: extracted 18-path tree = the documented construction; `pi = pj` is the `domain_error` path
-(NB the real function is declared `noexcept`, so that path terminates the program instead of throwing — see the check's notes) -/
+/-- `firstFrame`: extracted 18-path tree = the documented construction; `pi = pj` is the `domain_error` path.
+That the SHIPPED build (noexcept configuration on) really delivers that exception to the caller is OBSERVED, in a fork()ed child, by
+`harness/corr/c09_noexcept.cpp` (obligation "shipped build …" of the check); while `firstFrame` was declared `noexcept` it did not —
+`std::terminate` (finding `c09_noexcept:firstFrame:pi=pj`, fixed by /repo 24cea33).  The extractor no longer overrides `IMATH_NOEXCEPT`. -/
 theorem firstFrame_spec (tmin tmax : α) (sqrt : α → α) (pi pj pk : V3 α) :
     Gen.Frame.firstFrame tmin tmax sqrt pi pj pk = firstFrameSpec (Gen.V3.length tmin tmax sqrt) pi pj pk := by
   obtain ⟨ix, iy, iz⟩ := pi
@@ -413,7 +442,7 @@ theorem firstFrame_collinear (tmin tmax : α) (sqrt : α → α) (hlen : LenSpec
   rw [firstFrame_spec]
   obtain ⟨M, h1, h2, h3, h4, _, h6⟩ := firstFrameSpec_collinear hlen hd hc
   exact ⟨M, h1, h2, h3, h4, h6⟩
-/-- coincident first two points: the `std::domain_error` path -/
+/-- coincident first two points: the documented `std::domain_error` path (of the model; for the shipped build see `firstFrame_spec`) -/
 theorem firstFrame_coincident (tmin tmax : α) (sqrt : α → α) (hlen : LenSpec (Gen.V3.length tmin tmax sqrt)) (pi pk : V3 α) :
     Gen.Frame.firstFrame tmin tmax sqrt pi pi pk = .error Exc.domainError := by
   rw [firstFrame_spec]
